@@ -11,42 +11,22 @@
 -/
 import PM.Basic
 import PM.Content
+import PM.Fill
 import PM.Marks
 import PM.Step
 namespace PM
 
 /-! ### fill_before: the chosen filler types -/
 
-mutual
-/-- `search(match, types)`; returns the answer and the updated seen-list.  `fuel` bounds the recursion
-    depth (each recursive call first marks a new state as seen, so the number of states + 1 suffices). -/
-def fillSearchO (d : Dfa) (gen : TypeId → Bool) (after : List TypeId) (toEnd : Bool) :
-    (fuel : Nat) → (q : Nat) → (types : List TypeId) → (seen : List Nat) → Option (List TypeId) × List Nat
-  | 0, _, _, seen => (none, seen)
-  | fuel + 1, q, types, seen =>
-    let finished := match d.run q after with
-      | some f => !toEnd || d.validEnd f
-      | none => false
-    if finished then (some types, seen)
-    else fillEdgesO d gen after toEnd fuel (d.edgesOf q) types seen
-/-- the loop `for i in match.next` -/
-def fillEdgesO (d : Dfa) (gen : TypeId → Bool) (after : List TypeId) (toEnd : Bool) :
-    (fuel : Nat) → (edges : List (TypeId × Nat)) → (types : List TypeId) → (seen : List Nat) →
-      Option (List TypeId) × List Nat
-  | _, [], _, seen => (none, seen)
-  | fuel, (t, nxt) :: rest, types, seen =>
-    if gen t && !seen.contains nxt then
-      match fillSearchO d gen after toEnd fuel nxt (types ++ [t]) (nxt :: seen) with
-      | (some r, seen') => (some r, seen')
-      | (none, seen') => fillEdgesO d gen after toEnd fuel rest types seen'
-    else fillEdgesO d gen after toEnd fuel rest types seen
-end
-
 /-- `match.fill_before(after, to_end, start_index)` as the list of filler *types*
-    (`after` = the types of `after[start_index:]`); `none` = Python `None` -/
+    (`after` = the types of `after[start_index:]`); `none` = Python `None`.
+    The search itself is `PM.fillSearch` (PM/Fill.lean; it is already in the order of the code: depth
+    first over `match.next` in edge order, one seen-list shared by the whole search), here with the
+    schema's own notion of a generatable type — so the theorems of Props/C15.lean about `fillBefore`
+    are theorems about the search the Fitter uses. -/
 def fillBeforeTypes (S : Schema) (d : Dfa) (q : Nat) (after : List TypeId) (toEnd : Bool) :
     Option (List TypeId) :=
-  (fillSearchO d S.generatable after toEnd (d.size + 1) q [] [q]).1
+  fillBefore d S.generatable q after toEnd
 
 /-! ### find_wrapping: breadth-first over wrapper types -/
 
@@ -56,16 +36,13 @@ structure WrapItem where
   chain : List TypeId       -- wrappers chosen so far, outermost first
 deriving Repr, Inhabited
 
-/-- `not type.is_leaf and not type.has_required_attrs()` -/
-def Schema.wrappable (S : Schema) (t : TypeId) : Bool :=
-  !(S.nodeType t).isLeaf && !(S.nodeType t).attrs.any (fun a => !a.hasDefault)
-
-/-- the body of `for i in range(len(match.next))`: appended items and the grown seen-set -/
+/-- the body of `for i in range(len(match.next))`: appended items and the grown seen-set
+    (`S.wrapOk t` = `not type.is_leaf and not type.has_required_attrs()`, PM/Fill.lean) -/
 def wrapEdges (S : Schema) (d : Dfa) (cur : WrapItem) :
     List (TypeId × Nat) → List TypeId → List WrapItem × List TypeId
   | [], seen => ([], seen)
   | (t, nxt) :: rest, seen =>
-    if S.wrappable t && !seen.contains t && (cur.ty.isNone || d.validEnd nxt) then
+    if S.wrapOk t && !seen.contains t && (cur.ty.isNone || d.validEnd nxt) then
       let (more, seen') := wrapEdges S d cur rest (t :: seen)
       (⟨some t, 0, cur.chain ++ [t]⟩ :: more, seen')
     else wrapEdges S d cur rest seen
